@@ -283,7 +283,10 @@ func (tree *Tree[T]) Handler(ctx *types.Context, method string) (types.Node, T, 
 	if h, exists := node.handlers[method]; exists {
 		return node, h, true
 	}
-	return node, node.handlers[methodNotAllowed], false
+	if h, exists := node.handlers[methodNotAllowed]; exists {
+		return node, h, false
+	}
+	return nil, tree.notFound, false // 比如 GET *，OPTIONS * 所在的节点并没有 405 的处理方法。
 }
 
 // Routes 获取当前的所有路由项以及对应的请求方法
